@@ -47,7 +47,20 @@ def _rch(Ms, k, d):
     return out
 
 
-INTERP_EXT = {'lch': _lch, 'rch': _rch, 'cnorm': lambda a: float(np.linalg.norm(a))}
+def _cslput(g, k, a):
+    k = int(k)
+    if not (0 <= k < g.shape[1] and a.shape == (g.shape[0], g.shape[2])):
+        _undefined('slice assignment out of range / of a different shape')
+    h = g.copy()
+    h[:, k, :] = a
+    return h
+
+
+def _nonsing(a):
+    return bool(a.shape[0] == a.shape[1] and abs(np.linalg.det(a)) > 1e-9)
+
+
+INTERP_EXT = {'nonsing': _nonsing, 'lch': _lch, 'rch': _rch, 'cnorm': lambda a: float(np.linalg.norm(a)), 'cslput': _cslput}
 
 
 def _wrap_sample(mod):
